@@ -288,6 +288,25 @@ def fr_case(stream, ending, api, one_byte=False, check_values=True):
                         "%s failed with %s (%s) in %s on stream %.60r + %s" % (api, c, str(e)[:80], where, stream, ending))
             obs.append(("exc", type(e).__name__))
             break
+    # the caller logs the error and calls again (twice): still only documented exceptions, no spinning (values are not compared here)
+    if obs and obs[-1][0] == "exc" and api != "close":
+        for _again in range(2):
+            try:
+                if api == "recv":
+                    ws.recv()
+                elif api == "recv_data_frame":
+                    ws.recv_data_frame(True)
+                else:
+                    ws.recv_frame()
+            except env.Spin:
+                return ({"kind": "spin", "phase": "frames-after-error", "api": api}, "%s, called again after %s, kept calling the transport without progress on %.40r" % (api, obs[-1][1], stream))
+            except Exception as e:
+                c = classify_exc(e, sock)
+                if c is not None:
+                    v = as_violation(e)
+                    where = v.sig["where"] if v else "?"
+                    return ({"kind": "internal-error", "phase": "frames-after-error", "exc": c, "where": where, "api": api},
+                            "%s, called again after %s, failed with %s (%s) in %s on stream %.60r + %s" % (api, obs[-1][1], c, str(e)[:80], where, stream, ending))
     if check_values and api != "close":
         exp = c03.expected_obs(stream, api)
         # strip writes; the reference's final element describes the end of the stream
